@@ -90,3 +90,46 @@ pub mod second {
 pub fn collide(one: &first::One, two: &second::Two) -> Response {
     Response::ok().set_typed_body(format!("{}{}", one.0, two.0))
 }
+
+/// One `clone_if_necessary` value taken BY VALUE by three constructors, two of which feed a fallible
+/// constructor: the consumers that compete for the value are {B, C, D} on the happy path and
+/// {B, C} on the path through the error handler — overlapping, not identical, sets.
+pub mod fanout {
+    use pavex::Response;
+    #[derive(Clone)]
+    pub struct A;
+    pub struct B;
+    pub struct C;
+    pub struct D;
+    pub struct X;
+    #[derive(Debug)]
+    pub struct XError;
+    #[pavex::request_scoped(id = "FO_A", clone_if_necessary)]
+    pub fn a() -> A {
+        A
+    }
+    #[pavex::request_scoped(id = "FO_B")]
+    pub fn b(_a: A) -> B {
+        B
+    }
+    #[pavex::request_scoped(id = "FO_C")]
+    pub fn c(_a: A) -> C {
+        C
+    }
+    #[pavex::request_scoped(id = "FO_D")]
+    pub fn d(_a: A) -> D {
+        D
+    }
+    #[pavex::request_scoped(id = "FO_X")]
+    pub fn x(_b: B, _c: C) -> Result<X, XError> {
+        Ok(X)
+    }
+    #[pavex::error_handler(id = "FO_X_ERROR")]
+    pub fn x_error(#[px(error_ref)] _e: &XError) -> Response {
+        Response::internal_server_error()
+    }
+    #[pavex::get(path = "/shapes/fanout", id = "FO_HANDLER")]
+    pub fn handler(_x: X, _d: D) -> Response {
+        Response::ok()
+    }
+}
